@@ -623,6 +623,11 @@ package zygo
 //@ func NewZlispSandbox
 //@ C08 ensures sandboxed: r0.sandboxed
 //@ C08 ensures family: familyAgree(r0, sandboxed)
+// The command-line tool's entry builds the unrestricted interpreter only when the configuration does
+// not ask for a sandbox, whatever else it asks for; nothing else in the library builds one.
+//@ func ReplMain
+//@ C08 assert a-sandboxed-repl-is-built-sandboxed @before call NewZlisp[*]: !cfg.Sandboxed
+//@ callers C08 NewZlisp | ReplMain
 // The two places that can reach the world do so only in a non-sandboxed interpreter.
 //@ effects C08 guarded (*Generator).GenerateInclude unless gen.env.sandboxed
 //@ effects C08 guarded (*Zlisp).ImportPackageBuilder unless env.sandboxed
